@@ -41,6 +41,9 @@ pub struct Exchange {
     pub close_data: Vec<u8>,
     /// further bare 100 responses right behind the first one (only with Late100)
     pub extra_interim: usize,
+    /// bare 100 responses nobody asked for, right in front of the final response (after any
+    /// handshake traffic): each is handed to the caller as a response, the flow stays in RecvResponse
+    pub unsolicited_100: usize,
 }
 
 #[derive(Clone, Debug)]
@@ -103,6 +106,14 @@ impl Exchange {
             }
             _ => 0,
         };
+        let mut interim_len = interim_len;
+        if self.handshake != Handshake::Refused {
+            for _ in 0..self.unsolicited_100 {
+                let u = b"HTTP/1.1 100 Continue\r\n\r\n";
+                stream.extend_from_slice(u);
+                interim_len += u.len();
+            }
+        }
         let hb = head.render();
         stream.extend_from_slice(&hb);
         let mut coded = None;
